@@ -26,11 +26,11 @@ ASSUMPTIONS = ["streams always end in a quit trailer that is reachable from ever
 
 TAGS = "foo\tf\t/foo/\nfoo\tg\t1\nmain\th.c\t/^int main/\nbar\tnofile\t1\nabc\tf\t3\n"
 EX_PREFIX = "rs a\nfoo\n.\nrs b\n1p\n.\nrs c\ns/a/b/\n.\nrs x\nbar\nbaz\n.\nrs \\a\n$d\n.\nrs \\x\nec hi\n.\n"
-VI_PREFIX = ":rs a\nx\n.\n:rs b\ndw\n.\n:rs x\nibar" + gen.ESC + "\n.\n:rs \\a\n$d\n.\n:rs \\x\nec hi\n.\n"
+VI_PREFIX = ":rs q\n" + "l" * 199 + "\n.\n:rs a\nx\n.\n:rs b\ndw\n.\n:rs x\nibar" + gen.ESC + "\n.\n:rs \\a\n$d\n.\n:rs \\x\nec hi\n.\n"
 
 
 def prepare(build, tier):
-    return {"vi": build.vi_asan()}
+    return {"vi": build.vi_asan(), "cov": build.vi_cov()}
 
 
 def budget(tier):
@@ -117,3 +117,54 @@ def run_case(env, c):
         sig = r.signature()
         return Outcome(False, nt, cl + ["crash"], detail={"why": "memory error / crash", "signature": sig, "mode": c["mode"]})
     return Outcome(True, nt, cl)
+
+
+def extra(env, tier, seed):
+    """source line coverage of a sample of generated streams (informational: shows which files the generator reaches thinly)"""
+    import glob
+    import json
+    import subprocess
+    from hypothesis import given, settings, seed as hseed, HealthCheck, Phase
+    n = 300 if tier == "quick" else 3000
+    root = os.path.dirname(env.root)
+    prof = os.path.join(root, "prof")
+    os.makedirs(prof, exist_ok=True)
+    count = [0]
+
+    @hseed(seed + 12345)
+    @settings(max_examples=n, database=None, deadline=None, suppress_health_check=list(HealthCheck), phases=[Phase.generate])
+    @given(case())
+    def body(c):
+        d = env.fresh()
+        for nm, ls in c["files"].items():
+            runner.write_file(d, nm, gen.to_bytes(ls))
+        runner.write_file(d, "tags", TAGS.encode())
+        optlines = "".join(o + "\n" for o in c["opts"])
+        if c["mode"] == "ex":
+            stdin = (EX_PREFIX + optlines + c["script"]).encode("utf-8") + b"\n" + runner.EX_TRAILER
+            argv = ["-s", "-e"] + c["argv"]
+        else:
+            stdin = (VI_PREFIX + "".join(":" + o + "\n" for o in c["opts"]) + c["script"]).encode("utf-8") + runner.VI_TRAILER
+            argv = ["-v"] + c["argv"]
+        count[0] += 1
+        runner.run_editor(env.paths["cov"], argv, stdin, d, rows=c["rows"], cols=c["cols"], cpu=10, wall=30, want_stats=False,
+                          env_extra={"LLVM_PROFILE_FILE": os.path.join(prof, "p%4m.profraw")})     # %m: profiles are merged on line
+    try:
+        body()
+    except Exception:
+        pass
+    files = glob.glob(os.path.join(prof, "*.profraw"))
+    cov = {}
+    try:
+        merged = os.path.join(prof, "all.profdata")
+        subprocess.run(["llvm-profdata-14", "merge", "-sparse", "-o", merged] + files, check=True, stdout=subprocess.PIPE, stderr=subprocess.PIPE)
+        r = subprocess.run(["llvm-cov-14", "export", "-summary-only", "-instr-profile=" + merged, env.paths["cov"]], stdout=subprocess.PIPE, stderr=subprocess.PIPE)
+        data = json.loads(r.stdout)
+        for f in data["data"][0]["files"]:
+            cov[os.path.basename(f["filename"])] = round(f["summary"]["lines"]["percent"], 1)
+        cov["TOTAL"] = round(data["data"][0]["totals"]["lines"]["percent"], 1)
+    except Exception as e:
+        cov = {"error": str(e)[:200]}
+    return [{"name": "source_line_coverage_of_a_sample", "exhaustive": False, "evaluations": count[0], "distinct_nontrivial": 0,
+             "line_coverage_percent_by_file": cov, "samples": ["%d generated streams run on a clang source-coverage build; profiles merged with llvm-profdata" % count[0]],
+             "violations": []}]
